@@ -686,6 +686,56 @@ def abandoned_iteration_fail():
     return None
 
 
+def wrapper_close_fail():
+    """An IOPort whose input or output port was closed on its own (the device hung up, the program closed that one directly):
+    close() / leaving a `with` block on the wrapper still closes the OTHER wrapped port - its device is released exactly once,
+    after its reset messages were sent once."""
+    import mido
+    import mido.ports as P
+    log = []
+
+    class In(P.BaseInput):
+        def _receive(self, block=True):
+            return None
+
+        def _close(self):
+            log.append('in released')
+
+    class Out(P.BaseOutput):
+        def _send(self, msg):
+            log.append('sent')
+
+        def _close(self):
+            log.append('out released')
+    for which in ('input', 'output'):
+        for how in ('close', 'with'):
+            del log[:]
+            inp, out = In('i'), Out('o', autoreset=True)
+            port = P.IOPort(inp, out)
+            (inp if which == 'input' else out).close()
+            del log[:]
+            try:
+                if how == 'close':
+                    port.close()
+                    port.close()
+                else:
+                    with port:
+                        pass
+            except Exception as e:      # noqa: BLE001
+                return f'IOPort whose {which} port was closed directly: {how} raised {type(e).__name__}: {e}'
+            other = out if which == 'input' else inp
+            if not other.closed or not port.closed:
+                return (f'IOPort whose {which} port was closed directly: after {how} on the wrapper the other wrapped port is '
+                        f'{"closed" if other.closed else "still open"}, the wrapper reports closed={port.closed}')
+            want = ['sent'] * len(out.reset_messages() if hasattr(out, 'reset_messages') else []) if which == 'input' else None
+            released = log.count('out released') if which == 'input' else log.count('in released')
+            if released != 1:
+                return f'IOPort whose {which} port was closed directly: after {how} the other device was released {released} times ({log})'
+            if which == 'input' and log.count('sent') == 0:
+                return f'IOPort whose input port was closed directly: {how} on the wrapper released the autoreset output without sending its reset messages ({log})'
+    return None
+
+
 def run(ck):
     ck.prepare_lean(extra_targets=['MidoProofs.Props.C11b'])
     ck.run_corpus(oracle)
@@ -746,6 +796,11 @@ def run(ck):
             if f:
                 ck.oracle_fail({'one_pause': [kind, action]}, f)
     ck.evaluations += 1
+    ck.count('wrapper_close')
+    f = wrapper_close_fail()
+    ck.evaluations += 1
+    if f:
+        ck.oracle_fail({'wrapper_close': True}, f)
     ck.count('abandoned_iteration')
     f = abandoned_iteration_fail()
     ck.evaluations += 1
@@ -792,6 +847,8 @@ def oracle(case):
         return closed_port_kinds_fail()
     if 'abandoned_iteration' in case:
         return abandoned_iteration_fail()
+    if 'wrapper_close' in case:
+        return wrapper_close_fail()
     if 'multi_big_child' in case:
         return multi_big_child(case['multi_big_child'])
     if 'reset_independence' in case:
